@@ -11,7 +11,13 @@ definition."
 What the engine theorems (C14, C15) give for the shipped patterns, composed:
 
 * `header_found_iff`: a position/extent `(p, f)` is reported by `find_all` **iff** it is a greedy
-  match of the pattern and is not pre-empted by another reported match;
+  match of the pattern and is not pre-empted by another reported match.  The right-hand side
+  mentions the OUTPUT again (the reported matches that could pre-empt): the statement is an
+  EQUATION that the set of reported matches satisfies, not yet a description from the input alone;
+* `header_found_unique`: that equation has exactly ONE solution.  Pre-emption only comes from
+  matches that finish earlier (or finish together and start earlier), so the set of reported matches
+  is the unique relation `R` with `R p f ↔ greedy (p, f) ∧ no (s, e) with R s e pre-empts (p, f)`:
+  an input-only definition of what `find_all` reports ("earliest finish wins");
 * `canonical_header_found` / `canonical_header_found_shape`: sufficient conditions on the token
   list alone;
 * `headers_found_iff`, `canonical_header_extracted`, `extracted_is_header`: the same through the
@@ -46,7 +52,12 @@ theorem shipped_machine (L : Language) (hL : L ∈ Gen.all.map (·.2)) (hp : Hea
 greedy matching from `p` succeeds with finish `f` and no reported match pre-empts it: none that
 starts before `p`, covers `p` and finishes no later than `f`, and none that starts after `p` and
 finishes strictly before `f` (the pre-emption of known finding KF1).  The reported match records
-exactly the tokens `toks[p..f)`. -/
+exactly the tokens `toks[p..f)`.
+
+NOTE: the right-hand side quantifies over the reported matches `ms` themselves - this is the
+equation the output satisfies, and `header_found_unique` shows that it has no other solution.
+Conditions on the input alone that IMPLY "reported": `canonical_header_found` (engine terms),
+`C01syn.c_header_complete` … (syntactic terms). -/
 theorem header_found_iff (L : Language) (hL : L ∈ Gen.all.map (·.2)) (hp : HeaderPat)
     (hhp : hp ∈ L.pats) (D : Dfa Pred) (hD : compileTok hp.expr = .ok D) (toks : List Tok)
     (ms : List (Match Tok)) (hms : findAll (dfaMachine D tokAcceptor) toks = .ok ms) (p f : Nat) :
@@ -86,6 +97,67 @@ theorem header_found_iff_simple (L : Language) (hL : L ∈ Gen.all.map (·.2)) (
     rintro ⟨m, hm, ⟨h1, h2, _⟩ | h⟩
     · exact hnp ⟨m, hm, .inl ⟨h1, h2⟩⟩
     · exact hnp ⟨m, hm, .inr h⟩
+
+/-- **The equation of `header_found_iff` determines the reported matches.**  Let `R` be ANY relation
+on positions/extents that satisfies the equation "`R p f` iff greedy matching from `p` succeeds with
+finish `f` and no `(s, e)` with `R s e` pre-empts `(p, f)`" - a condition on the INPUT token list
+and `R` only.  Then `R` is the set of matches that `find_all` reports.  (A pre-empting match
+finishes strictly earlier, or finishes together and starts earlier, so the equation is a
+well-founded recursion on `(finish, start)`.)  Hence the right-hand side of `header_found_iff` is
+not circular: it DEFINES the output from the input. -/
+theorem header_found_unique (L : Language) (hL : L ∈ Gen.all.map (·.2)) (hp : HeaderPat)
+    (hhp : hp ∈ L.pats) (D : Dfa Pred) (hD : compileTok hp.expr = .ok D) (toks : List Tok)
+    (ms : List (Match Tok)) (hms : findAll (dfaMachine D tokAcceptor) toks = .ok ms)
+    (R : Nat → Nat → Prop)
+    (hR : ∀ p f, R p f ↔ GreedyAt (dfaMachine D tokAcceptor) toks p f ∧
+      ¬ ∃ s e, R s e ∧ ((s < p ∧ p < e ∧ e ≤ f) ∨ (p < s ∧ e < f))) :
+    ∀ p f, R p f ↔ ∃ m ∈ ms, m.s = p ∧ m.e = f := by
+  obtain ⟨hnn, hds⟩ := shipped_machine L hL hp hhp D hD
+  have key : ∀ f p, R p f ↔ ∃ m ∈ ms, m.s = p ∧ m.e = f := by
+    intro f
+    induction f using Nat.strongRecOn with
+    | _ f ihf =>
+      intro p
+      induction p using Nat.strongRecOn with
+      | _ p ihp =>
+        rw [hR p f, reported_iff hnn hds hms p f]
+        refine and_congr Iff.rfl (not_congr ?_)
+        constructor
+        · rintro ⟨s, e, hr, hc⟩
+          have hrep : ∃ m ∈ ms, m.s = s ∧ m.e = e := by
+            rcases hc with ⟨h1, _, h3⟩ | ⟨_, h2⟩
+            · rcases Nat.lt_or_eq_of_le h3 with h | h
+              · exact (ihf e h s).1 hr
+              · subst h; exact (ihp s h1).1 hr
+            · exact (ihf e h2 s).1 hr
+          obtain ⟨m, hm, rfl, rfl⟩ := hrep
+          exact ⟨m, hm, hc⟩
+        · rintro ⟨m, hm, hc⟩
+          refine ⟨m.s, m.e, ?_, hc⟩
+          rcases hc with ⟨h1, _, h3⟩ | ⟨_, h2⟩
+          · rcases Nat.lt_or_eq_of_le h3 with h | h
+            · exact (ihf m.e h m.s).2 ⟨m, hm, rfl, rfl⟩
+            · have := (ihp m.s h1)
+              rw [← h] at this
+              exact this.2 ⟨m, hm, rfl, rfl⟩
+          · exact (ihf m.e h2 m.s).2 ⟨m, hm, rfl, rfl⟩
+  exact fun p f => key f p
+
+/-- the hypothesis of `header_found_unique` is satisfiable: the set of reported matches itself
+solves the equation (this is `header_found_iff` with the pre-empting match named by its extent) -/
+theorem header_found_solves (L : Language) (hL : L ∈ Gen.all.map (·.2)) (hp : HeaderPat)
+    (hhp : hp ∈ L.pats) (D : Dfa Pred) (hD : compileTok hp.expr = .ok D) (toks : List Tok)
+    (ms : List (Match Tok)) (hms : findAll (dfaMachine D tokAcceptor) toks = .ok ms) (p f : Nat) :
+    (∃ m ∈ ms, m.s = p ∧ m.e = f) ↔ GreedyAt (dfaMachine D tokAcceptor) toks p f ∧
+      ¬ ∃ s e, (∃ m ∈ ms, m.s = s ∧ m.e = e) ∧ ((s < p ∧ p < e ∧ e ≤ f) ∨ (p < s ∧ e < f)) := by
+  obtain ⟨hnn, hds⟩ := shipped_machine L hL hp hhp D hD
+  rw [reported_iff hnn hds hms p f]
+  refine and_congr Iff.rfl (not_congr ?_)
+  constructor
+  · rintro ⟨m, hm, hc⟩
+    exact ⟨m.s, m.e, ⟨m, hm, rfl, rfl⟩, hc⟩
+  · rintro ⟨s, e, ⟨m, hm, rfl, rfl⟩, hc⟩
+    exact ⟨m, hm, hc⟩
 
 /-- no start is reported twice (and no two reported matches overlap): the reported matches have
 strictly increasing starts -/
@@ -181,7 +253,8 @@ theorem canonical_header_found_shape (L : Language) (hL : L ∈ Gen.all.map (·.
 
 /-- `get_headers`: a header with token range `[p, f)` is returned exactly when `(p, f)` is a
 greedy match that is not pre-empted (as in `header_found_iff`) and the follow-up test succeeds
-at `f`; `ms` are the matches of the underlying `find_all`. -/
+at `f`; `ms` are the matches of the underlying `find_all` (determined from the input by
+`header_found_unique`; the right-hand side is the same fixed-point form as there). -/
 theorem getHeaders_found_iff (L : Language) (hL : L ∈ Gen.all.map (·.2)) (hp : HeaderPat)
     (hhp : hp ∈ L.pats) (toks : List Tok) (hs : List Header)
     (h : getHeaders hp toks = .ok hs) :
@@ -210,7 +283,9 @@ theorem getHeaders_found_iff (L : Language) (hL : L ∈ Gen.all.map (·.2)) (hp 
 /-- `Language.extract_headers`: a header with token range `[p, f)` is returned exactly when, for
 one of the language's patterns, `(p, f)` is a greedy match that is not pre-empted by a reported
 match of that pattern's `find_all`, the pattern's follow-up test succeeds at `f`, and (Java) the
-token before `p` is not one of the excluded keywords. -/
+token before `p` is not one of the excluded keywords.  (Same fixed-point form as
+`header_found_iff`: `ms` is the output of `find_all`, determined from the input by
+`header_found_unique`.) -/
 theorem headers_found_iff (L : Language) (hL : L ∈ Gen.all.map (·.2)) (toks : List Tok)
     (hs : List Header) (h : extractHeaders L toks = .ok hs) (p f : Nat) :
     (∃ hd ∈ hs, hd.rng = ⟨p, f⟩ ∧ firstName (slice toks p f) = .ok hd.name) ↔
@@ -302,11 +377,17 @@ theorem canonical_header_extracted (L : Language) (hL : L ∈ Gen.all.map (·.2)
 
 /-! ## 3a. every measurement is the measurement of an extracted header -/
 
-/-- "reports nothing that is not a function definition", end to end: for every text and every
+/-- "reports nothing that is not a function definition", ENGINE form: for every text and every
 lexer output (no hypothesis on it), every measurement of the file starts at the position of the
 first token of a header returned by `extract_headers` on the code tokens, carries that header's
 name, and that header is a greedy match of one of the language's header patterns, followed by the
-pattern's follow-up tokens and not preceded by an excluded keyword. -/
+pattern's follow-up tokens and not preceded by an excluded keyword.
+
+This statement speaks about the compiled DFA (`GreedyAt`, `FollowsAt`) and says nothing about the
+end or the length of the measurement.  The form a reader can check on a source file -
+`Name ( … )+ {` etc., with end and length, and "no function twice" - is
+`C01syn.measurement_is_synHeader` (`…_java`, `…_js`, `…_ts`), `C01pyfull.measurement_is_defHeader`,
+`C01syn.measurements_start_distinct`. -/
 theorem measurement_is_header (L : Language) (hL : L ∈ Gen.all.map (·.2)) (code : Str)
     (raw : List RawTok) (ms : List Measurement) (n : Nat)
     (ha : analyze L code raw = .ok (ms, n)) :
